@@ -465,6 +465,9 @@ func runC08(c *Ctx) {
 		if rootAboveStreamingLimit(d) {
 			continue // the property's side condition: no root block exceeds the size limit
 		}
+		if c.quick() && i%3 != 0 {
+			continue // 1 MiB documents: a third of them in the quick tier (limit-8, -4096, -16384, -24576, … all still probed)
+		}
 		c.fam("near-block-limit", "cases", 1)
 		for _, s := range []sched{{"whole", nil, false}, {"whole+eof", nil, true}} {
 			if r := compare(d, s); r != "" {
